@@ -171,4 +171,7 @@ SUBS = [
     Sub(name='random-long', kind='hyp', run=run, strategy=lambda tier: long_histories(tier=tier),
         rule='1-4 atoms x 2-120 (300) frames x <=6 sites, inner == outer in about half the cases, residences 0,1,2,3,5,10,50',
         n={'quick': 150, 'thorough': 4000}, shards={'quick': 8, 'thorough': 16}),
+    Sub(name='fuzz-jumps', kind='fuzz', run=run, target='jumps',
+        rule='thorough tier only: atheris (libFuzzer) coverage-guided campaign on the Python-level classifier with the property oracle inside the target; bytes are decoded into a structured case; empty and seeded corpus shards; non-trivial counted but not de-duplicated',
+        n={'quick': 0, 'thorough': 60000}, shards={'quick': 1, 'thorough': 16}),
 ]
